@@ -32,10 +32,11 @@ class Finding:
     detail: Dict[str, Any] = field(default_factory=dict)
     line: Optional[int] = None
     file: Optional[str] = None
+    where_key: Optional[str] = None  # role name of the function when it was located by role, not by name
 
     @property
     def key(self) -> str:
-        return f"{self.rule}|{self.where}|{self.construct}"
+        return f"{self.rule}|{self.where_key or self.where}|{self.construct}"
 
 
 class Ctx:
@@ -51,6 +52,8 @@ class Ctx:
         self.trusted: List[str] = []
         self.assumptions: List[str] = []
         self.counters: Dict[str, int] = {}
+        # function located by its role (a renamed private helper) -> the name findings about it are keyed by
+        self.alias: Dict[str, str] = {}
 
     # -- obligations -------------------------------------------------------
     def ok(self, rule: str, where: str, what: str, **extra: Any) -> None:
@@ -69,7 +72,7 @@ class Ctx:
         **detail: Any,
     ) -> None:
         line = getattr(node, "lineno", None) if node is not None else None
-        f = Finding(rule, where, construct, message, detail, line, file)
+        f = Finding(rule, where, construct, message, detail, line, file, self.alias.get(where))
         self.findings.append(f)
         self.instances.append(
             {
